@@ -5,9 +5,16 @@
   script: comma separated events  d<k> | r | f | t | pr<k> | pf<k>   ("-" = empty)
 -/
 import PyroModel.SockIO
+import PyroModel.PyIR
+import PyroModel.Gen.C17
 import Driver.Util
 
 open Pyro Pyro.SockIO Driver
+
+/- Besides the hand-written model, every line is also run through the PyIR interpreter on the transcription of the
+   current source (Gen/C17.lean).  PyroProps/C17Ast.lean proves the two agree for all inputs; printing a disagreement
+   here (suffix " IR:<outcome>") is what lets the harness find a concrete input when that proof no longer checks, and
+   comparing the line with the real code's behaviour is what validates the interpreter and the transcription. -/
 
 def parseEv (s : String) : Option Ev :=
   if s == "r" then some .retryable
@@ -21,26 +28,51 @@ def parseEv (s : String) : Option Ev :=
 def parseScript (s : String) : Option (List Ev) :=
   if s == "-" then some [] else (s.splitOn ",").mapM parseEv
 
+def showRecv (x : RecvResult × Bytes × List Ev) : String :=
+  let (r, rest, left) := x
+  let tail := s!" {rest.length} {left.length}"
+  match r with
+  | .ok d => "ok " ++ bytesToHex d ++ tail
+  | .closed (some p) => "closed " ++ bytesToHex p ++ tail
+  | .closed none => "closed none" ++ tail
+  | .timeout => "timeout -" ++ tail
+  | .scriptEnd => "scriptend -" ++ tail
+
+def showSend (x : SendResult × Bytes × List Ev) : String :=
+  let (r, acc, left) := x
+  let tag := match r with
+    | .ok => "ok" | .closed => "closed" | .timeout => "timeout" | .scriptEnd => "scriptend"
+  s!"{tag} {bytesToHex acc} {left.length}"
+
+def showRes : PyIR.Res → String
+  | .normal _ _ => "fell-off-the-end"
+  | .brk _ _ => "break-outside-loop"
+  | .cont _ _ => "continue-outside-loop"
+  | .ret v _ => "returned " ++ reprStr v
+  | .raise e _ _ => "raised " ++ reprStr e
+  | .outOfFuel => "out-of-fuel"
+  | .scriptEnd _ => "scriptend"
+  | .stuck => "stuck"
+
+def withIR (model : String) (ir : Option String) (raw : PyIR.Res) : String :=
+  match ir with
+  | some s => if s == model then model else model ++ " IR:" ++ s
+  | none => model ++ " IR:" ++ showRes raw
+
 def step : List String → String
   | ["recv", w, size, stream, script] =>
     match size.toNat?, hexToBytes stream, parseScript script with
     | some n, some st, some sc =>
-      let (r, rest, left) := receive (w == "1") n st sc
-      let tail := s!" {rest.length} {left.length}"
-      match r with
-      | .ok d => "ok " ++ bytesToHex d ++ tail
-      | .closed (some p) => "closed " ++ bytesToHex p ++ tail
-      | .closed none => "closed none" ++ tail
-      | .timeout => "timeout -" ++ tail
-      | .scriptEnd => "scriptend -" ++ tail
+      let model := showRecv (receive (w == "1") n st sc)
+      let raw := PyIR.runRecv ⟨w == "1", false, true, Pyro.Gen.C17.isSub⟩ Pyro.Gen.C17.receiveData n st sc
+      withIR model ((PyIR.toRecv raw).map showRecv) raw
     | _, _, _ => "bad-op"
   | ["send", b, data, script] =>
     match hexToBytes data, parseScript script with
     | some d, some sc =>
-      let (r, acc, left) := send (b == "1") d sc
-      let tag := match r with
-        | .ok => "ok" | .closed => "closed" | .timeout => "timeout" | .scriptEnd => "scriptend"
-      s!"{tag} {bytesToHex acc} {left.length}"
+      let model := showSend (send (b == "1") d sc)
+      let raw := PyIR.runSend ⟨false, false, b == "1", Pyro.Gen.C17.isSub⟩ Pyro.Gen.C17.sendData d sc
+      withIR model ((PyIR.toSend raw).map showSend) raw
     | _, _ => "bad-op"
   | _ => "bad-op"
 
